@@ -19,7 +19,7 @@ BUILTINS = {'round', 'array', 'nonzero', 'slice', 'transpose', 'split', 'full_li
             'empty_like', 'zeros_like', 'sum', 'tuple', 'list', 'isinstance', 'print', 'zip', 'floor', 'sqrt',
             'exp', 'tanh', 'cosh', 'cos', 'sin', 'RuntimeError', 'ValueError', 'AssertionError', 'NotImplementedError',
             'str', 'reversed', 'sorted', 'all', 'any', 'prod', 'pi', 'mod', 'fabs', 'log', 'dict', 'set'}
-SPEC_BUILTINS = {'view_fixed', 'view_of', 'caller', 'gfield', 'comm_size', 'comm_rank', 'peer_send', 'flatidx', 'prodof', 'coll_trace', 'interp_val', 'holds', 'valid', 'field_of', 'layout_of', 'same_content', 'distinct_bufs', 'same_buf', 'bufview', 'name_id', 'split', 'uknots', 'forall', 'exists', 'sum_', 'implies', 'and_', 'iff', 'old', 'ite_', 'shape', 'let', 'select', 'real', 'fdiv', 'fmod', 'trunc'}
+SPEC_BUILTINS = {'arrof', 'view_fixed', 'view_of', 'caller', 'gfield', 'comm_size', 'comm_rank', 'peer_send', 'flatidx', 'prodof', 'coll_trace', 'interp_val', 'holds', 'valid', 'field_of', 'layout_of', 'same_content', 'distinct_bufs', 'same_buf', 'bufview', 'name_id', 'split', 'uknots', 'forall', 'exists', 'sum_', 'implies', 'and_', 'iff', 'old', 'ite_', 'shape', 'let', 'select', 'real', 'fdiv', 'fmod', 'trunc'}
 
 import vf.execu as _execu
 _execu.BUILTINS = BUILTINS
@@ -47,6 +47,12 @@ class Engine(Exec):
         if f.kind == 'bufmethod':
             return self.buf_method(st, fr, f, args)
         if f.kind == 'arrmethod':
+            if f.name == 'copy':
+                # a new array object with the current values (never a view)
+                v = f.ref
+                a = self.new_arr(st, v.rank, list(v.shape), v.elem, 'copy')
+                st.heap[a.aid] = self.arr_term(st, v)
+                return a
             if f.name == 'reshape':
                 shp = args[0] if len(args) == 1 else list(args)
                 return self.flat_reshape(st, fr, f.ref, shp, node)
@@ -152,6 +158,12 @@ class Engine(Exec):
             return V.ObjArray(args[0])
         if name == 'nonzero' and args and isinstance(args[0], V.ObjArray) and all(isinstance(x, bool) for x in args[0]):
             return ([k for k, x in enumerate(args[0]) if x],)
+        if name == 'arrof':
+            # arrof(lambda k: expr): the (unbounded) array whose k-th element is expr - for arguments of array-valued spec functions
+            lam = args[0]
+            ks = [z3.Int('arrof!%d' % k) for k in range(len(getattr(lam, '_params', [None])))]
+            body = lam(*ks)
+            return SpecArr(z3.Lambda(ks, ZR(body)), [None] * len(ks), REAL)
         if name == 'view_fixed':
             # view_fixed(v, k): the index at which view v fixes axis k of the array it is a view of
             v, k = args
@@ -807,6 +819,14 @@ class Engine(Exec):
             elif c.returns.startswith('tuple:'):
                 result = tuple(fresh('ret_' + qual.split('.')[-1], {'int': 'int', 'float': 'real', 'bool': 'bool'}[k])
                                for k in c.returns[6:].split(','))
+            elif c.returns.startswith('arr') and c.returns[3:].isdigit():
+                # a freshly allocated array of unknown shape and contents (the ensures clauses say more)
+                rk = int(c.returns[3:])
+                shp = [fresh('ret_n%d' % k, 'int') for k in range(rk)]
+                for s_ in shp:
+                    st.pc.append(s_ >= 0)
+                result = self.new_arr(st, rk, shp, REAL, 'ret_' + qual.split('.')[-1])
+                post_st.heap[result.aid] = st.heap[result.aid]
             else:
                 result = fresh('ret_' + qual.split('.')[-1], {'int': 'int', 'float': 'real', 'bool': 'bool'}[c.returns])
             post_st.env['result'] = result
